@@ -390,6 +390,7 @@ class Sim:
         self.plan = plan
         self.repo = os.path.realpath(_tree.REPO)
         self.tool = os.path.realpath(_tree.tool_path())
+        self.tool_norm = os.path.normpath(os.path.join(self.repo, _tree.TOOL_REL))
         self.step_budget = step_budget
         self.event_cap = event_cap
         self.events = []
@@ -403,6 +404,7 @@ class Sim:
         self.clock_reads = 0
         self.git_calls = 0
         self.repo_writes = []
+        self.access_count = {}
         faults = plan.get("faults") or []
         if faults and twin is None:
             raise ValueError("a faulty plan needs the fault-free twin's footprint")
@@ -451,7 +453,7 @@ class Sim:
             return "."
         if not ap.startswith(self.repo + os.sep):
             return None
-        if os.path.realpath(ap) == self.tool:
+        if ap == self.tool or ap == self.tool_norm:
             return None
         return ap[len(self.repo) + 1:]
 
@@ -460,6 +462,72 @@ class Sim:
             if f["op"] == op and f.get("target") == rel and not f.get("_done"):
                 return f
         return None
+
+    def touch(self, rel):
+        """Count an access (stat or open) to a project path; returns its 0-based index."""
+        n = self.access_count.get(rel, 0)
+        self.access_count[rel] = n + 1
+        return n
+
+    def missing(self, rel, access_index):
+        """The simulated file system is coherent: a file that is missing (open fault ENOENT) is
+        missing for stat/exists/isfile/access as well, from its `from_access`-th access on."""
+        for f in self.faults:
+            if f["op"] == "open" and f.get("errno") == "ENOENT" and f.get("target") == rel:
+                if access_index >= int(f.get("from_access", 0)):
+                    return f
+        return None
+
+    def sim_stat(self, path, *a, **kw):
+        if isinstance(path, int) or kw.get("dir_fd") is not None:
+            return self.real_stat(path, *a, **kw)
+        rel = self.relproj(path)
+        if rel is None or rel == ".":
+            return self.real_stat(path, *a, **kw)
+        i = self.touch(rel)
+        f = self.missing(rel, i)
+        self.log("stat", file=rel, missing=bool(f))
+        if f is not None:
+            if not f.get("_delivered"):
+                f["_delivered"] = True
+                self.deliver(f, target=rel, via="stat")
+            raise _oserror("ENOENT", os.fspath(path))
+        return self.real_stat(path, *a, **kw)
+
+    def sim_lstat(self, path, *a, **kw):
+        if isinstance(path, int) or kw.get("dir_fd") is not None:
+            return self.real_lstat(path, *a, **kw)
+        rel = self.relproj(path)
+        if rel is None or rel == ".":
+            return self.real_lstat(path, *a, **kw)
+        i = self.touch(rel)
+        f = self.missing(rel, i)
+        self.log("lstat", file=rel, missing=bool(f))
+        if f is not None:
+            if not f.get("_delivered"):
+                f["_delivered"] = True
+                self.deliver(f, target=rel, via="lstat")
+            raise _oserror("ENOENT", os.fspath(path))
+        return self.real_lstat(path, *a, **kw)
+
+    def sim_access(self, path, mode, *a, **kw):
+        if isinstance(path, int) or kw.get("dir_fd") is not None:
+            return self.real_access(path, mode, *a, **kw)
+        rel = self.relproj(path)
+        if rel is None or rel == ".":
+            return self.real_access(path, mode, *a, **kw)
+        i = self.touch(rel)
+        f = self.missing(rel, i)
+        unreadable = any(g["op"] == "open" and g.get("errno") == "EACCES" and g.get("target") == rel for g in self.faults)
+        self.log("access", file=rel, missing=bool(f), unreadable=unreadable)
+        if f is not None:
+            if not f.get("_delivered"):
+                f["_delivered"] = True
+                self.deliver(f, target=rel, via="access")
+            return False
+        if unreadable and (mode & os.R_OK):
+            return False
+        return self.real_access(path, mode, *a, **kw)
 
     # -- directory enumeration ------------------------------------------------------------------
     def ordered(self, rel, names):
@@ -541,8 +609,15 @@ class Sim:
         if first:
             self.opened.append(rel)
         self.log("open", file=rel)
-        f = self.fault_for("open", rel)
+        i = self.touch(rel)
+        f = self.missing(rel, i)
         if f is not None:
+            if not f.get("_delivered"):
+                f["_delivered"] = True
+                self.deliver(f, target=rel, via="open")
+            raise _oserror("ENOENT", os.fspath(file))
+        f = self.fault_for("open", rel)
+        if f is not None and f.get("errno") != "ENOENT":
             f["_done"] = True
             self.deliver(f, target=rel)
             raise _oserror(f["errno"], os.fspath(file))
@@ -610,6 +685,9 @@ class Sim:
             "cwd": os.getcwd(),
             "listdir": os.listdir,
             "scandir": os.scandir,
+            "stat": os.stat,
+            "lstat": os.lstat,
+            "access": os.access,
             "open": builtins.open,
             "io_open": io.open,
             "Popen": _subprocess_mod.Popen,
@@ -619,6 +697,9 @@ class Sim:
         }
         self.real_listdir = os.listdir
         self.real_scandir = os.scandir
+        self.real_stat = os.stat
+        self.real_lstat = os.lstat
+        self.real_access = os.access
         self.real_open = builtins.open
         self.real_datetime = _datetime_mod.datetime
         self.cwd = self.repo
@@ -675,6 +756,9 @@ class Sim:
             sys.stderr = err
             os.listdir = self.sim_listdir
             os.scandir = self.sim_scandir
+            os.stat = self.sim_stat
+            os.lstat = self.sim_lstat
+            os.access = self.sim_access
             builtins.open = self.sim_open
             io.open = self.sim_open
             _subprocess_mod.Popen = FakePopen
@@ -726,6 +810,9 @@ class Sim:
             _subprocess_mod.Popen = saved["Popen"]
             io.open = saved["io_open"]
             builtins.open = saved["open"]
+            os.access = saved["access"]
+            os.lstat = saved["lstat"]
+            os.stat = saved["stat"]
             os.scandir = saved["scandir"]
             os.listdir = saved["listdir"]
             sys.stderr = saved["stderr"]
